@@ -21,8 +21,8 @@ from txdbus import error as t_error
 
 PROPERTY = 'C13'
 LEVEL = 'exploration'
-QUICK_RUNS = 3000
-QUICK_BUDGET_S = 120
+QUICK_RUNS = 12000
+QUICK_BUDGET_S = 60
 THOROUGH_BUDGET_S = 1200
 RULE = ('histories of 3-25 RequestName (8 flag combinations) / ReleaseName / GetNameOwner / '
         'ListQueuedOwners / disconnect / connect issued by up to 4 peers (reference and real '
